@@ -513,6 +513,7 @@ def random_tokens(rng, ver, ntok, maxout):
 
 
 # ------------------------------------------------------------------------------------ shared check machinery
+import common  # noqa: E402
 from common import PropertyCheck, Case, NPROC  # noqa: E402
 NPROC_SHARDS = NPROC
 
@@ -597,6 +598,19 @@ def compress_inputs(rng, tier, kind, hdr_flag_small):
         s13 = bytes([0x13, n & 0xFF, n >> 8, 0]) + s11
         for stream in (s10, s13, s11):
             cases.append(Case("%s %s %s" % (kind, hdr_flag_small(len(stream)), hexb(stream)), "input-is-a-compressed-stream"))
+    # GENUINE compressed files as input (seeded C09-10: compress returned its input unchanged when the input was a complete
+    # LZ13 file whose wrapper value agrees with calculate_lz13_header of the decoded data - hand-made wrappers do not):
+    # x = the extracted model's compress13 / compress10 of y (equal to the library's output byte for byte by the
+    # correspondence; computed here with the model driver, wrapper length included), for tiny, small and medium y
+    ys = [b"\x00", b"a", b"ab", bytes(20), rand_bytes(rng, 20), periodic(b"abc", 100), rand_bytes(rng, 100, 3),
+          structured_input(rng, 300)[1] or b"x", rand_bytes(rng, 1000, 4), periodic(rand_bytes(rng, 7), 1100)]
+    lines = ["lz13c 2 %s" % hexb(y) for y in ys] + ["lz10c 1 %s" % hexb(y) for y in ys]
+    outs = common.run_tool(common.driver_bin(), lines, common.WORK, "lzgen", shards=1)
+    for o in outs:
+        if o.startswith("ok B"):
+            x = parse_hex(o.split(" ")[1])
+            cases.append(Case("%s %s %s" % (kind, hdr_flag_small(len(x)), hexb(x)), "input-is-a-genuine-compressed-file"))
+            cases.append(Case("%s %s %s" % (kind[:-1] + "f", hdr_flag_small(len(x)), hexb(x)), "input-is-a-genuine-compressed-file"))
     # more than 65536 consecutive LITERAL tokens: 3-byte records (hi, lo, 0xFF) of a counter - no 3-byte substring repeats, so
     # the compressor never finds a match (seeded change C08-6 counted consecutive literals in a u16: overflow panic in debug builds)
     for nrec in ((22000, 23500) if tier == "quick" else (22000, 23500, 30000, 44000)):
